@@ -26,6 +26,7 @@ FIXED = {  # commit subject prefix -> (property, key, what failed)
  "fix: Demux.Cancel and Stop no longer panic": ("C18", "demux-cancel-close", "Cancel(key) while the run loop is parked handing an envelope to that key (or a writer is parked / writes afterwards): send on closed channel; Stop with the run loop parked on a hand-off never returns"),
  "fix: the HTTP transport's idle cleanup no longer panics": ("C19", "http-cleaner-vs-sender-and-read-ctx", "idle cleaner closes the delivery channel while ServeHTTP is parked sending on it: send on closed channel; httpReadWriter.Read ignores its context"),
  "fix: the HTTP transport's Write honours": ("C19", "http-write-ctx", "httpReadWriter.Write ignores its context: blocked POST does not return on cancel"),
+ "fix: a receive on a stream torn down by a failed send reports the context's status": ("C07", "recv-respchan-closed-on-cancel", "a second goroutine of the caller is sending when the context is cancelled: its SendMsg fails, tears the stream down and closes the response channel; the read loop's select then has the closed channel and ctx.Done() ready and picks at random, so the pending receive reports Unknown 'respChan closed' instead of Canceled (found by TestC07SendRace, written for seeded change C07i)"),
  "fix: a stream's trailer is written even when the stream's own context is already done": ("C06", "trailer-dropped-after-deadline", "a streaming handler that returns after its stream's grpc-timeout deadline has passed (caller has not reset, connection alive): the trailer with the final status is written only about half the time, because the per-stream writer selects at random between the done stream context and the ready connection writer (found by TestC06Deadline, written for seeded change C06f)"),
  "fix: stats End reports the error of an RPC that failed with io.EOF": ("C20", "stats-end-eof-nil", "a unary RPC refused or failed because the transport's Read returned io.EOF (or an error wrapping it), or a handler error wrapping io.EOF: the caller gets an error but every stats handler's End.Error is nil (found when the fault-error-kind dimension was added after seeded round 4)"),
  "fix: a receive that fails to decode a message aborts": ("C13", "decode-error-keeps-stream", "garbage body to stream B (its caller stops receiving after the decode error), three more bodies for B: dispatch parked on B forever, call A hangs even after the connection is closed (found by the native fuzz target FuzzC13)"),
